@@ -6,7 +6,7 @@ bitmaps, metafile records, pixel-size probes) and keep the frame's display size 
 parsed only when get_metadata() is called.  This family therefore enumerates, for every format whose reference writer can
 embed a picture, the document [paragraph, one picture] with the picture described by
 
-    pic = {"kind": K, "w": lexeme name, "h": lexeme name, "uid2": bool, "title": S, "desc": S, "name": S, "cap": S}
+    pic = {"kind": K, "w": lexeme name, "h": lexeme name, "uid2": bool, "title": S, "desc": S, "name": S, "cap": S, "file": N}
 
 K (payload encoding; each payload is a minimal valid file of the kind unless said otherwise)
     png, jpeg, gif, bmp (24 bit, 40-byte BITMAPINFOHEADER), bmpv5 (124-byte BITMAPV5HEADER), tiff, emf, wmf (placeable), pict,
@@ -41,6 +41,18 @@ S names a STATE of the slot, "ok" = what the writer does by itself)
   states of an attribute slot: ok, absent (only where the natural form writes the attribute), empty (a=""), ws, text, uni, nl (&#10;)
   states of cap:               ok (no caption frame), empty (caption paragraph holds the picture only), text, uni,
                                seq ("Illustration <text:sequence>1</text:sequence>: text", what an editor writes)
+
+file (the STORAGE NAME of the picture: the name of the package member that holds the payload and that the document refers to;
+extractors derive get_content_type() - and sometimes the kind - from this name, through a suffix table of their own or the platform's
+MIME table, which knows media suffixes, compression suffixes (.gz .Z .bz2 .xz .br: "encoding" of the named type) and
+aliases (.svgz .tgz .taz .tz .tbz2 .txz); N names a lexeme of FILES, "ok" = the writer's natural name <key>.<kind suffix>)
+    odt, odp, odg, ods (Pictures/<name>, also in the manifest), docx, pptx, xlsx (<part dir>/media/<name>, relationship target, an
+        Override content type for the part), epub (OEBPS/img/<name>, manifest item with the kind's media type, img src):
+        the member is renamed and every reference to it with it (asserted: at least one reference).  Lexemes: upper-case / other-
+        media / text / unknown / numeric / very long suffix, no suffix, trailing dot, suffix only, two suffixes, every compression
+        or alias suffix of the MIME table alone ("k.bz2") and stacked on the picture's suffix ("k.png.bz2"), non-ASCII stem /
+        suffix (ODF, EPUB: package names are IRIs; not OOXML, whose part names are ASCII and must not end in a dot).
+    rtf, ppt, xls: pictures have no storage name.
 
 Nothing here shares code with the library.  Writers are used as they are; where a writer cannot express the deviation
 (size lexemes of OOXML / RTF, RTF picture kinds, label slots) its output is patched at exactly one place (asserted).
@@ -77,7 +89,19 @@ LAB_ATTR = ["ok", "empty", "ws", "text", "uni", "nl"]                          #
 LAB_ATTR_NAT = ["ok", "absent", "empty", "ws", "text", "uni", "nl"]            # attribute slot the writer fills by itself
 LAB_CAP = ["ok", "empty", "text", "uni", "seq"]                                # caption paragraph around the picture frame (odt)
 LAB_FORMATS = ODF_FORMATS + ("docx", "pptx", "xlsx", "epub")
-DEFAULT = {"kind": "png", "w": "ok", "h": "ok", "uid2": False, "title": "ok", "desc": "ok", "name": "ok", "cap": "ok"}
+DEFAULT = {"kind": "png", "w": "ok", "h": "ok", "uid2": False, "title": "ok", "desc": "ok", "name": "ok", "cap": "ok", "file": "ok"}
+# storage names.  MIME_SUFFIXES: the suffixes Python's mimetypes module (the platform MIME table most libraries consult) does not map to a
+# type of their own: encodings_map (compression: the type is the one of the name without the suffix) and suffix_map (aliases)
+MIME_SUFFIXES = [".gz", ".Z", ".bz2", ".xz", ".br", ".svgz", ".tgz", ".taz", ".tz", ".tbz2", ".txz"]
+FILES = {"ok": None, "upper": "k.PNG", "jpg": "k.jpg", "svg": "k.svg", "txt": "k.txt", "html": "k.html", "unknown": "k.qqq",
+         "num": "k.123", "long": "k." + "x" * 200, "noext": "k", "enddot": "k.", "dotfile": ".png", "double": "k.png.jpg",
+         "unistem": "\u00fc\u00e4.png", "uniext": "k.\u00fc"}
+for _s in MIME_SUFFIXES:
+    FILES["c" + _s] = "k" + _s                 # the suffix alone
+    FILES["pc" + _s] = "k.png" + _s            # stacked on a picture suffix
+FILE_FORMATS = ODF_FORMATS + ("docx", "pptx", "xlsx", "epub")
+_FILES_NOT_OOXML = ("enddot", "unistem", "uniext")
+FILE_KINDS_THOROUGH = ("png", "unk", "empty")
 
 _EXT = {"png": "png", "jpeg": "jpeg", "gif": "gif", "bmp": "bmp", "bmpv5": "bmp", "tiff": "tiff", "emf": "emf", "wmf": "wmf",
         "pict": "pct", "unk": "bin", "empty": "png", "png0": "png", "pngsig": "png"}
@@ -120,6 +144,15 @@ def labels_of(fmt):
     return {}
 
 
+def files_of(fmt):
+    """the storage-name lexemes of a format: {} when its pictures have no storage name"""
+    if fmt not in FILE_FORMATS:
+        return {}
+    if fmt in ("docx", "pptx", "xlsx"):
+        return {k: v for k, v in FILES.items() if k not in _FILES_NOT_OOXML}
+    return FILES
+
+
 def canonical(pic):
     """only the components that differ from DEFAULT (the PNG in a frame of natural size, one UID)"""
     return {k: v for k, v in sorted(pic.items()) if v != DEFAULT[k]}
@@ -132,7 +165,8 @@ def valid(fmt, pic):
     s = sizes_of(fmt) or {"ok": None}
     lab = labels_of(fmt)
     return (p["kind"] in kinds_of(fmt) and p["w"] in s and p["h"] in s and isinstance(p["uid2"], bool)
-            and (not p["uid2"] or fmt in BLIP_FORMATS) and all(p[k] in lab.get(k, ("ok",)) for k in LAB_SLOTS))
+            and (not p["uid2"] or fmt in BLIP_FORMATS) and all(p[k] in lab.get(k, ("ok",)) for k in LAB_SLOTS)
+            and (p["file"] == "ok" or p["file"] in files_of(fmt)))
 
 
 # ------------------------------------------------------------------------------------------------ payloads
@@ -378,6 +412,48 @@ def _lab_ooxml(data: bytes, fmt, p, tk) -> bytes:
     return _patch_part(data, part, lambda x: _sub_once(x, scope, inside, "picture"))
 
 
+# ------------------------------------------------------------------------------------------------ storage name
+
+_PIC_DIR = {"odt": "Pictures/", "odp": "Pictures/", "odg": "Pictures/", "ods": "Pictures/", "docx": "word/media/", "pptx": "ppt/media/",
+            "xlsx": "xl/media/", "epub": "OEBPS/img/"}
+_TEXT_PART = re.compile(r".*\.(xml|rels|opf|xhtml|html|ncx)\Z")
+
+
+def _rename_picture(data: bytes, fmt, new: str) -> bytes:
+    """the one picture member of the package is stored as <its directory>/<new>; every reference to its old name in the XML parts
+    (content, manifest / relationships / package document) follows.  OOXML: the new part gets an Override content type."""
+    src = zipfile.ZipFile(io.BytesIO(data))
+    pics = [n for n in src.namelist() if n.startswith(_PIC_DIR[fmt]) and not n.endswith("/")]
+    if len(pics) != 1:
+        raise ValueError("picture rename: expected one picture member, found %r" % (pics,))
+    old = pics[0]
+    old_base, new_name = old[len(_PIC_DIR[fmt]):], _PIC_DIR[fmt] + new
+    if new_name in src.namelist():
+        raise ValueError("picture rename: %r exists" % new_name)
+    refs = 0
+    out = io.BytesIO()
+    with zipfile.ZipFile(out, "w") as z:
+        for zi in src.infolist():
+            raw = src.read(zi)
+            if zi.filename == old:
+                nzi = zipfile.ZipInfo(new_name, zi.date_time)
+                nzi.external_attr = zi.external_attr
+                z.writestr(nzi, raw, compress_type=zi.compress_type)
+                continue
+            if _TEXT_PART.match(zi.filename) or zi.filename == "[Content_Types].xml":
+                text = raw.decode("utf-8")
+                refs += text.count(old_base)
+                text = text.replace(old_base, _xa(new))
+                if zi.filename == "[Content_Types].xml":
+                    text = _sub_once(text, r"</Types>", '<Override PartName="/%s" ContentType="image/png"/></Types>' % _xa(new_name),
+                                     "content types end")
+                raw = text.encode("utf-8")
+            z.writestr(zi, raw, compress_type=zi.compress_type)
+    if refs < 1:
+        raise ValueError("picture rename: no reference to %r found" % old_base)
+    return out.getvalue()
+
+
 # ------------------------------------------------------------------------------------------------ builder
 
 def build(fmt, pic, tk):
@@ -439,6 +515,8 @@ def build(fmt, pic, tk):
             data = _lab_odf(data, p, tk)
         elif fmt in ("docx", "pptx", "xlsx"):
             data = _lab_ooxml(data, fmt, p, tk)
+    if p["file"] != "ok":
+        data = _rename_picture(data, fmt, files_of(fmt)[p["file"]])
     return {"data": data, "props": {}, "members": [], "used": used}
 
 
@@ -511,4 +589,17 @@ def label_cases(tier, fmt):
             combos = [dict(c, **{k: x}) for c in combos for x in lab[k]]
         for c in combos:
             add(c)
+    return out
+
+
+def file_cases(tier, fmt):
+    """the picture stored under every storage-name lexeme of the format (natural frame size and labels):
+       quick: the PNG;  thorough: the payload kinds FILE_KINDS_THOROUGH (PNG, bytes of no picture format, zero bytes)."""
+    out = []
+    for k in (FILE_KINDS_THOROUGH if tier != "quick" else ("png",)):
+        if k not in kinds_of(fmt):
+            continue
+        for name in files_of(fmt):
+            if name != "ok":
+                out.append(canonical(dict(DEFAULT, kind=k, file=name)))
     return out
